@@ -61,7 +61,13 @@ def oracle_grad(case):
     s = case["spec"]
     label = E.label(s) + f", X dtype {case['dtype']}"
     X64 = E.build_data(s)
-    X = cast(X64, case["dtype"])
+    dtype = case["dtype"]
+    names_ = [a["name"] for a in (s.get("aff"), s.get("base_kernel"), (s.get("gemini") or {}).get("gs", {}).get("a")) if a]
+    if dtype in ("int8", "int16") and (s["cls"] == "KernelRIM" or any(nm in ("poly", "polynomial") for nm in names_)):
+        # quantised data filling the integer range are 'huge' data: fixed-step descent on features growing like |x|^2..|x|^6
+        # overflows legitimately (same exclusion as for the 'huge' and 'scaled' kinds)
+        dtype = "float64"
+    X = cast(X64, dtype)
     Xf = np.asarray(X, dtype=np.float64)
     n, K = s["n"], s["n_clusters"]
     est, y = E.build(s, Xf)
@@ -108,7 +114,7 @@ def oracle_grad(case):
     if base != "wasserstein" or n <= 8:
         ref = R.gemini(base, ovo, Pc, A)
         tol = R.score_tol(base, A, ref)
-        if case["dtype"] == "float32":
+        if dtype == "float32":
             # score() evaluates the affinity in the precision of the data it is given (fit converts to float64, score
             # does not): single-precision rounding, amplified by the square root for MMD
             S = R.natural_scale(base, A)
@@ -130,7 +136,7 @@ def oracle_grad(case):
         if base != "wasserstein" or len(idx) <= 8:
             ref2 = R.gemini(base, ovo, P2, A2)
             tol2 = R.score_tol(base, A2, ref2)
-            if case["dtype"] == "float32":
+            if dtype == "float32":
                 tol2 = max(tol2, (2e-3 if base == "mmd" else 1e-5) * max(R.natural_scale(base, A2), abs(ref2)))
             if not np.isfinite(sc2) or abs(sc2 - ref2) > tol2:
                 raise Violation(f"{label}: score on rows {idx.tolist()} is {sc2!r}, the {base} GEMINI of predict_proba on those rows is {ref2!r}")
@@ -153,7 +159,7 @@ def oracle_grad(case):
                         f"differently (the returned arrays are shared with the model's state)")
     nondefault = sum(1 for k in s if k not in ("cls", "n", "d", "x", "random_state", "max_iter", "learning_rate"))
     return {"nontrivial": bool(n >= 2 and nondefault >= 2),
-            "classes": [s["cls"], "dtype:" + case["dtype"], f"K={K}"], "note": {"labels": labels.tolist()[:12], "score": sc}}
+            "classes": [s["cls"], "dtype:" + dtype, f"K={K}"], "note": {"labels": labels.tolist()[:12], "score": sc}}
 
 
 @st.composite
